@@ -2,7 +2,7 @@
     This file contains only statements; each is closed by [exact] of a lemma proved in
     Proofs/. *)
 From SV Require Import Model.Base Model.F64 Model.LeapArray Spec.C02Spec
-  Proofs.LeapArrayProofs Proofs.C02Proofs.
+  Proofs.LeapArrayProofs Proofs.C02Proofs Proofs.C02Count Proofs.C02Past.
 Open Scope N_scope.
 
 (** Hypotheses shared by the read theorems: ring [g] with bucket length > 0; window [w]
@@ -58,6 +58,44 @@ Theorem C02_slots_reflect_history : forall g h slots,
      forall e, In e h -> N.to_nat (idx g (fst e)) = i -> start g (fst e) <= s).
 Proof. exact slots_reflect_history. Qed.
 Print Assumptions C02_slots_reflect_history.
+
+(** Reads for a window that ends before the last write (what qps_previous does): as long as no
+    bucket of the window has been recycled for a later one, the same values are read — later
+    events are never reported. *)
+Definition C02_pre_past (g : geom) (wsc wiv : N) (w : win) (h : list ev_t) (slots : list slot) (now : N) : Prop :=
+  0 < bl g /\ 0 < sc g /\ win_new g wsc wiv = Some w /\ wf_hist g h /\
+  run_writes g (ring0 g) h = Some slots /\ iv g <= now /\
+  (forall e, In e h -> start g (fst e) < start g now - w_iv w + bl g + iv g).
+
+Theorem C02_sum_exact_past : forall g wsc wiv w h slots now ev,
+  C02_pre_past g wsc wiv w h slots now ->
+  sum_with_time g w slots now ev = ROk (spec_sum g w now ev h).
+Proof. exact sum_exact_past. Qed.
+Print Assumptions C02_sum_exact_past.
+
+Theorem C02_min_rt_exact_past : forall g wsc wiv w h slots now,
+  C02_pre_past g wsc wiv w h slots now ->
+  win_min_rt g w slots now = ROk (spec_min_rt g w now h).
+Proof. exact min_rt_exact_past. Qed.
+
+Theorem C02_max_concurrency_exact_past : forall g wsc wiv w h slots now,
+  C02_pre_past g wsc wiv w h slots now ->
+  win_max_conc g w slots now = ROk (spec_max_conc g w now h).
+Proof. exact max_conc_exact_past. Qed.
+
+Theorem C02_rate_exact_past : forall g wsc wiv w h slots now ev,
+  C02_pre_past g wsc wiv w h slots now ->
+  qps_with_time g w slots now ev = ROk (qps_of_sum w (spec_sum g w now ev h)).
+Proof. exact rate_exact_past. Qed.
+
+(** the whole-array count equals the direct computation from the event list: events in buckets
+    that are still valid at the read time and have not been recycled *)
+Theorem C02_count_exact : forall g h slots now ev,
+  0 < bl g -> 0 < sc g -> wf_hist g h -> run_writes g (ring0 g) h = Some slots ->
+  (forall e, In e h -> fst e <= now) ->
+  count_with_time g slots now ev = spec_count g now ev h.
+Proof. exact count_exact. Qed.
+Print Assumptions C02_count_exact.
 
 Theorem C02_ring_refused_iff : forall sample_count interval_ms,
   ring_new sample_count interval_ms = None <-> (sample_count = 0 \/ interval_ms mod sample_count <> 0).
